@@ -217,7 +217,8 @@ func runCheck(args []string) int {
 			var keep []*Obligation
 			for _, o := range r.res.Script.obls {
 				for _, f := range strings.Split(filter, ",") {
-					if (f == "locks" && o.Kind == "lock") || (f == "frame" && o.Kind == "frame") || strings.HasPrefix(o.Label, f) || (o.Cover && o.Label == "pre") ||
+					// a clause that no longer binds to the code (kind bind) is reported under every property that uses the unit
+					if o.Kind == "bind" || (f == "locks" && o.Kind == "lock") || (f == "frame" && o.Kind == "frame") || strings.HasPrefix(o.Label, f) || (o.Cover && o.Label == "pre") ||
 						strings.Contains(o.Label, ":"+f) { // inv-init "L1:<label>", hint "return2:<label>", pre@ "callee:<label>#k"
 						keep = append(keep, o)
 						break
